@@ -31,7 +31,9 @@ def values(kind):
     if t == "u32":
         return [{"n": v} for v in (0, 1, 0xFFFFFFFF)]
     if t == "var":
-        return [{"n": v} for v in (0, 1, 268435455)]
+        # both sides of every width boundary of the variable byte integer, and inside the four-byte range
+        return [{"n": v} for v in (0, 1, 127, 128, 16383, 16384, 2097151, 2097152, 16777215, 16777216, 33554431, 33554432,
+                                   268435455)]
     if t == "str":
         return [{"s": b("")}, {"s": b("x/y")}]
     if t == "bin":
@@ -188,6 +190,12 @@ def maxima():
         steps.append({"e": "disconnect", "reason": 0, "props": []})
         progs.append({"cfg": {"rx": 128, "tx": 512, "ka": 0, "sei": 0, "client_id": b("mx%d" % mp), "name": "maxima-%d" % mp},
                       "steps": steps, "connack": [{"id": 0x27, "n": mp, "s": [], "t": []}]})
+        if mp < 4:
+            # DISCONNECT in its reason-only form is three bytes long
+            progs.append({"cfg": {"rx": 128, "tx": 512, "ka": 0, "sei": 0, "client_id": b("mx%dd" % mp), "name": "maxima-%d-disc" % mp},
+                          "steps": [{"e": "disconnect", "reason": 4}, {"e": "disconnect", "reason": 0, "props": []},
+                                    {"e": "disconnect"}],
+                          "connack": [{"id": 0x27, "n": mp, "s": [], "t": []}]})
         if mp < 5:
             # the same for a QoS 2 publish (PUBREC) and for a PUBREL (PUBCOMP), each on its own connection
             for nm, pkt in (("q2", [0x34, 7, 0, 1, 0x61, 0, 9, 0, 0x78]), ("rel", [0x62, 2, 0, 9])):
